@@ -12,14 +12,17 @@ def isAutoKey : VKey → Bool
 def AutoBound (keys : List VKey) (n : Nat) : Prop :=
   ∀ k ∈ keys, ∀ p o c i, k = VKey.auto p o c i → c < n
 
-/-- the invariant of a subgraph-free build. -/
+/-- `_node_count()`: nodes of all graphs of the builder tree. -/
+abbrev N (st : St) : Nat := nodeCount true st
+
+/-- the invariant of a build: every automatic name was made with a count below the current total. -/
 def Inv (st : St) : Prop :=
-  AutoBound st.vkeys st.cur.nodes.length ∧ (st.vkeys.filter isAutoKey).Nodup
+  AutoBound st.vkeys (N st) ∧ (st.vkeys.filter isAutoKey).Nodup
 
 /-- `st'` extends `st` by raw keys only and leaves the current graph's nodes alone. -/
 def RawExt (st st' : St) : Prop :=
   (∃ rs : List VKey, st'.vkeys = st.vkeys ++ rs ∧ ∀ k ∈ rs, isAutoKey k = false) ∧
-  st'.cur.nodes.length = st.cur.nodes.length
+  N st' = N st
 
 theorem RawExt.refl (st : St) : RawExt st st := ⟨⟨[], by simp, by simp⟩, rfl⟩
 
@@ -50,6 +53,9 @@ theorem Inv.rawExt {st st' : St} (h : Inv st) (e : RawExt st st') : Inv st' := b
   · rw [ek, List.filter_append, hf, List.append_nil]
     exact h.2
 
+theorem N_def (st : St) : N st = st.cur.nodes.length + sumNodes st.stack + sumNodes st.done := by
+  simp [N, nodeCount]
+
 theorem rawExt_newValue (st : St) (n : String) : RawExt st (newValue st n).1 :=
   ⟨⟨[.raw n], rfl, by simp [isAutoKey]⟩, rfl⟩
 
@@ -68,7 +74,7 @@ theorem rawExt_resolveArgs : ∀ (args : List Arg) (st : St), RawExt st (resolve
     exact RawExt.trans (rawExt_promote st l) (rawExt_resolveArgs r (promote st l).1)
 
 theorem newValuesK_vkeys : ∀ (ks : List VKey) (st : St),
-    (newValuesK st ks).1.vkeys = st.vkeys ++ ks ∧ (newValuesK st ks).1.cur = st.cur
+    (newValuesK st ks).1.vkeys = st.vkeys ++ ks ∧ N (newValuesK st ks).1 = N st
   | [], st => by simp [newValuesK]
   | k :: r, st => by
     simp only [newValuesK]
@@ -76,12 +82,21 @@ theorem newValuesK_vkeys : ∀ (ks : List VKey) (st : St),
     simp only [newValueK] at this ⊢
     constructor
     · rw [this.1]; simp
-    · rw [this.2]
+    · rw [this.2]; rfl
 
-/-- the keys `_adapt_outputs` makes: raw, or automatic with the current count and pairwise distinct. -/
-theorem outKeys_spec (f : Frame) (op : String) (o : Outs) :
-    (∀ k ∈ outKeys f op o, ∀ p t c i, k = VKey.auto p t c i → c = f.nodes.length) ∧
-    ((outKeys f op o).filter isAutoKey).Nodup := by
+theorem rawExt_newValues (st : St) (ns : List String) : RawExt st (newValues st ns).1 := by
+  unfold newValues
+  obtain ⟨hk, hn⟩ := newValuesK_vkeys (ns.map VKey.raw) st
+  refine ⟨⟨ns.map VKey.raw, hk, ?_⟩, hn⟩
+  intro k hk
+  simp only [List.mem_map] at hk
+  obtain ⟨s, _, rfl⟩ := hk
+  rfl
+
+/-- the keys `_adapt_outputs` makes: raw, or automatic with the given count and pairwise distinct. -/
+theorem outKeys_spec (f : Frame) (n : Nat) (op : String) (o : Outs) :
+    (∀ k ∈ outKeys f n op o, ∀ p t c i, k = VKey.auto p t c i → c = n) ∧
+    ((outKeys f n op o).filter isAutoKey).Nodup := by
   cases o with
   | named ns =>
     simp only [outKeys]
@@ -98,7 +113,7 @@ theorem outKeys_spec (f : Frame) (op : String) (o : Outs) :
         simp [isAutoKey]
       rw [this]
       exact List.nodup_nil
-  | auto n =>
+  | auto m =>
     simp only [outKeys]
     split
     · constructor
@@ -115,8 +130,8 @@ theorem outKeys_spec (f : Frame) (op : String) (o : Outs) :
         obtain ⟨j, _, rfl⟩ := hk
         cases h
         rfl
-      · have : ((List.range n).map (fun i => VKey.auto (scopeParts f) op f.nodes.length (some i))).filter isAutoKey
-            = (List.range n).map (fun i => VKey.auto (scopeParts f) op f.nodes.length (some i)) := by
+      · have : ((List.range m).map (fun i => VKey.auto (scopeParts f) op n (some i))).filter isAutoKey
+            = (List.range m).map (fun i => VKey.auto (scopeParts f) op n (some i)) := by
           apply List.filter_eq_self.mpr
           intro k hk
           simp only [List.mem_map] at hk
@@ -127,35 +142,6 @@ theorem outKeys_spec (f : Frame) (op : String) (o : Outs) :
         intro a _ b _ h
         cases h
         rfl
-
-/-- creating the outputs of a new node and appending the node keeps the invariant. -/
-theorem Inv.addOutputs (st : St) (op : String) (o : Outs) (node : Node) (h : Inv st) :
-    Inv (addNode (newValuesK st (outKeys st.cur op o)).1 node) := by
-  obtain ⟨hk, hc⟩ := newValuesK_vkeys (outKeys st.cur op o) st
-  obtain ⟨hcount, hnd⟩ := outKeys_spec st.cur op o
-  have hlen : (addNode (newValuesK st (outKeys st.cur op o)).1 node).cur.nodes.length
-      = st.cur.nodes.length + 1 := by
-    simp [addNode, hc]
-  have hkeys : (addNode (newValuesK st (outKeys st.cur op o)).1 node).vkeys
-      = st.vkeys ++ outKeys st.cur op o := by
-    simp [addNode, hk]
-  refine ⟨?_, ?_⟩
-  · intro k hmem p t c i hkey
-    rw [hkeys] at hmem
-    rw [hlen]
-    rcases List.mem_append.mp hmem with hm | hm
-    · exact Nat.lt_succ_of_lt (h.1 k hm p t c i hkey)
-    · rw [hcount k hm p t c i hkey]; exact Nat.lt_succ_self _
-  · rw [hkeys, List.filter_append]
-    refine List.Nodup.append h.2 hnd ?_
-    intro k hk1 hk2
-    simp only [List.mem_filter] at hk1 hk2
-    cases k with
-    | raw s => simp [isAutoKey] at hk1
-    | auto p t c i =>
-      have h1 := h.1 _ hk1.1 p t c i rfl
-      have h2 := hcount _ hk2.1 p t c i rfl
-      omega
 
 def Inv' (st : St) (n : Nat) : Prop :=
   AutoBound st.vkeys n ∧ (st.vkeys.filter isAutoKey).Nodup
@@ -177,10 +163,11 @@ theorem Inv'.rawExt {st st' : St} {n : Nat} (h : Inv' st n) (e : RawExt st st') 
   · rw [ek, List.filter_append, hf, List.append_nil]
     exact h.2
 
-theorem Inv'.newOutputs (st : St) (op : String) (o : Outs) (h : Inv st) :
-    Inv' (newValuesK st (outKeys st.cur op o)).1 (st.cur.nodes.length + 1) := by
-  obtain ⟨hk, _⟩ := newValuesK_vkeys (outKeys st.cur op o) st
-  obtain ⟨hcount, hnd⟩ := outKeys_spec st.cur op o
+/-- new outputs named with the current total count. -/
+theorem Inv'.newOutputs (st : St) (f : Frame) (op : String) (o : Outs) (h : Inv st) :
+    Inv' (newValuesK st (outKeys f (N st) op o)).1 (N st + 1) := by
+  obtain ⟨hk, _⟩ := newValuesK_vkeys (outKeys f (N st) op o) st
+  obtain ⟨hcount, hnd⟩ := outKeys_spec f (N st) op o
   refine ⟨?_, ?_⟩
   · intro k hmem p t c i hkey
     rw [hk] at hmem
@@ -198,12 +185,16 @@ theorem Inv'.newOutputs (st : St) (op : String) (o : Outs) (h : Inv st) :
       have h2 := hcount _ hk2.1 p t c i rfl
       omega
 
-theorem Inv.ofAddNode (st : St) (node : Node) (h : Inv' st (st.cur.nodes.length + 1)) :
+theorem N_addNode (st : St) (node : Node) : N (addNode st node) = N st + 1 := by
+  simp [N, nodeCount, addNode]
+  omega
+
+theorem Inv.ofAddNode (st : St) (node : Node) (h : Inv' st (N st + 1)) :
     Inv (addNode st node) := by
   refine ⟨?_, ?_⟩
   · intro k hk p o c i hkey
-    have := h.1 k (by simpa [addNode] using hk) p o c i hkey
-    simpa [addNode] using this
+    rw [N_addNode]
+    exact h.1 k (by simpa [addNode] using hk) p o c i hkey
   · simpa [addNode] using h.2
 
 theorem rawExt_fail (st : St) (e : String) : RawExt st (fail st e) := by
@@ -212,56 +203,118 @@ theorem rawExt_fail (st : St) (e : String) : RawExt st (fail st e) := by
   · exact RawExt.refl st
   · exact ⟨⟨[], by simp, by simp⟩, rfl⟩
 
-theorem Inv.handles (st : St) (hs : List (Option Nat)) (h : Inv st) : Inv { st with handles := hs } := h
+theorem Inv.congr {a b : St} (hk : b.vkeys = a.vkeys) (hc : b.cur = a.cur) (hs : b.stack = a.stack)
+    (hd : b.done = a.done) (h : Inv a) : Inv b := by
+  unfold Inv N nodeCount at *
+  rw [hk, hc, hs, hd]
+  exact h
 
+/-- items whose names are covered by the theorem: everything but `call_inline` (its names are
+    `prefix + body name`, a different family). Subgraphs are included. -/
 def simpleItem : Item → Bool
-  | .beginSub _ _ => false
-  | .endSub _ _ => false
   | .inline _ _ _ _ => false
   | _ => true
 
 theorem Inv.doOp (st : St) (t : String) (a : List Arg) (o : Outs) (nn : Option String) (g : List Nat)
-    (h : Inv st) : Inv (doOp st t a o nn g) := by
+    (h : Inv st) : Inv (doOp true st t a o nn g) := by
   unfold OV.C18.doOp
-  have h1 : Inv (resolveArgs st a).1 := Inv.rawExt h (rawExt_resolveArgs a st)
-  rcases hr : resolveArgs st a with ⟨st1, ins⟩
-  rw [hr] at h1
-  simp only
-  rcases hv : newValuesK st1 (outKeys st1.cur t o) with ⟨st2, ids⟩
-  simp only
-  have h2 := Inv'.newOutputs st1 t o h1
-  rw [hv] at h2
-  have hc : st2.cur.nodes.length = st1.cur.nodes.length := by
-    have := (newValuesK_vkeys (outKeys st1.cur t o) st1).2
-    rw [hv] at this
-    rw [this]
-  apply Inv.handles
-  apply Inv.ofAddNode
-  rw [hc]
-  exact h2
-
-theorem Inv.congr {a b : St} (hk : b.vkeys = a.vkeys) (hc : b.cur = a.cur) (h : Inv a) : Inv b := by
-  unfold Inv at *
-  rw [hk, hc]
-  exact h
+  have he := rawExt_resolveArgs a st
+  split
+  rename_i st1 ins hr
+  rw [hr] at he
+  have h1 : Inv st1 := Inv.rawExt h he
+  simp only []
+  have h2 := Inv'.newOutputs st1 st1.cur t o h1
+  have hn := (newValuesK_vkeys (outKeys st1.cur (N st1) t o) st1).2
+  have h2 : Inv' (newValuesK st1 (outKeys st1.cur (N st1) t o)).fst
+      (N (newValuesK st1 (outKeys st1.cur (N st1) t o)).fst + 1) := by rw [hn]; exact h2
+  exact Inv.congr (a := addNode (newValuesK st1 (outKeys st1.cur (N st1) t o)).fst
+    ⟨match nn with | some n => n | none => autoNodeName st1.cur (N st1) t, "", t, ins,
+     (newValuesK st1 (outKeys st1.cur (N st1) t o)).snd, g, ""⟩) rfl rfl rfl rfl (Inv.ofAddNode _ _ h2)
 
 theorem Inv.doCall (fns : List Fn) (st : St) (fi : Nat) (a : List Arg) (o : Option Outs)
-    (h : Inv st) : Inv (doCall fns st fi a o) := by
+    (h : Inv st) : Inv (doCall true fns st fi a o) := by
   unfold OV.C18.doCall
   split
   · exact Inv.rawExt h (rawExt_fail st _)
   · rename_i f _
-    have h1 := Inv'.newOutputs st f.name (o.getD (.auto f.outputs.length)) h
-    have hc1 := (newValuesK_vkeys (outKeys st.cur f.name (o.getD (.auto f.outputs.length))) st).2
-    have he := rawExt_resolveArgs a (newValuesK st (outKeys st.cur f.name (o.getD (.auto f.outputs.length)))).1
-    have h2 : Inv' (resolveArgs (newValuesK st (outKeys st.cur f.name (o.getD (.auto f.outputs.length)))).1 a).1
-        ((resolveArgs (newValuesK st (outKeys st.cur f.name (o.getD (.auto f.outputs.length)))).1 a).1.cur.nodes.length + 1) := by
+    have h1 := Inv'.newOutputs st st.cur f.name (o.getD (.auto f.outputs.length)) h
+    have hc1 := (newValuesK_vkeys (outKeys st.cur (N st) f.name (o.getD (.auto f.outputs.length))) st).2
+    have he := rawExt_resolveArgs a (newValuesK st (outKeys st.cur (N st) f.name (o.getD (.auto f.outputs.length)))).1
+    have h2 : Inv' (resolveArgs (newValuesK st (outKeys st.cur (N st) f.name (o.getD (.auto f.outputs.length)))).1 a).1
+        (N (resolveArgs (newValuesK st (outKeys st.cur (N st) f.name (o.getD (.auto f.outputs.length)))).1 a).1 + 1) := by
       rw [he.2, hc1]
       exact Inv'.rawExt h1 he
-    exact Inv.congr rfl rfl (Inv.ofAddNode _ _ h2)
+    exact Inv.congr rfl rfl rfl rfl (Inv.ofAddNode _ _ h2)
+
+theorem sumNodes_append (a b : List Frame) : sumNodes (a ++ b) = sumNodes a + sumNodes b := by
+  simp [sumNodes]
+
+theorem renameValue_fold_keys {α : Type} (l : List α) (st : St) (g : St → α → St)
+    (hg : ∀ s x, (g s x).vkeys = s.vkeys ∧ (g s x).cur = s.cur ∧ (g s x).stack = s.stack ∧ (g s x).done = s.done) :
+    (l.foldl g st).vkeys = st.vkeys ∧ (l.foldl g st).cur = st.cur ∧ (l.foldl g st).stack = st.stack
+      ∧ (l.foldl g st).done = st.done := by
+  induction l generalizing st with
+  | nil => simp
+  | cons x r ih =>
+    simp only [List.foldl_cons]
+    obtain ⟨a, b, c, d⟩ := ih (g st x)
+    obtain ⟨a', b', c', d'⟩ := hg st x
+    exact ⟨a.trans a', b.trans b', c.trans c', d.trans d'⟩
+
+theorem newValuesK_frames : ∀ (ks : List VKey) (st : St),
+    (newValuesK st ks).1.cur = st.cur ∧ (newValuesK st ks).1.stack = st.stack ∧ (newValuesK st ks).1.done = st.done
+  | [], st => by simp [newValuesK]
+  | k :: r, st => by
+    simp only [newValuesK]
+    have := newValuesK_frames r (newValueK st k).1
+    simp only [newValueK] at this ⊢
+    exact this
+
+theorem Inv.doBeginSub (st : St) (g : String) (ins : List String) (h : Inv st) :
+    Inv (doBeginSub st g ins) := by
+  unfold OV.C18.doBeginSub
+  have he := rawExt_newValues st ins
+  have h1 : Inv (newValues st ins).1 := Inv.rawExt h he
+  have hn : N (newValues st ins).1 = N st := he.2
+  have hf := newValuesK_frames (ins.map VKey.raw) st
+  refine ⟨?_, h1.2⟩
+  intro k hk p o c i hkey
+  have := h1.1 k hk p o c i hkey
+  rw [hn, N_def] at this
+  have hd : (newValues st ins).1.done = st.done := hf.2.2
+  simp only [N, nodeCount, sumNodes, if_true, List.length_nil, List.map_cons, List.sum_cons, hd]
+  simp only [sumNodes] at this
+  omega
+
+theorem Inv.doEndSub (st : St) (rets : List Nat) (declared : List String) (h : Inv st) :
+    Inv (doEndSub st rets declared) := by
+  unfold OV.C18.doEndSub
+  split
+  · exact Inv.rawExt h (rawExt_fail st _)
+  · rename_i parent rest hs
+    split
+    · exact Inv.rawExt h (rawExt_fail st _)
+    · simp only []
+      generalize hfold : List.foldl _ st _ = st1
+      have hf : st1.vkeys = st.vkeys ∧ st1.cur = st.cur ∧ st1.stack = st.stack ∧ st1.done = st.done := by
+        rw [← hfold]
+        apply renameValue_fold_keys
+        intro s x
+        obtain ⟨id, d⟩ := x
+        by_cases hx : d = "" <;> simp [hx, renameValue]
+      obtain ⟨hk, hc, hst, hd⟩ := hf
+      refine ⟨?_, ?_⟩
+      · intro k hmem p o c i hkey
+        have hb := h.1 k (by simpa [hk] using hmem) p o c i hkey
+        rw [N_def, hs] at hb
+        simp only [N, nodeCount, if_true, hd, hc, sumNodes_append]
+        simp only [sumNodes, List.map_cons, List.sum_cons, List.map_nil, List.sum_nil] at hb ⊢
+        omega
+      · simpa [hk] using h.2
 
 theorem Inv.step (fns : List Fn) (st : St) (it : Item) (hs : simpleItem it = true) (h : Inv st) :
-    Inv (OV.C18.step fns st it) := by
+    Inv (OV.C18.step true fns st it) := by
   cases it with
   | input n => exact Inv.rawExt h ⟨⟨[.raw n], rfl, by simp [isAutoKey]⟩, rfl⟩
   | op t a o nn g => exact Inv.doOp st t a o nn g h
@@ -273,8 +326,8 @@ theorem Inv.step (fns : List Fn) (st : St) (it : Item) (hs : simpleItem it = tru
     · exact Inv.rawExt h ⟨⟨[], by simp, by simp⟩, rfl⟩
   | call f a o => exact Inv.doCall fns st f a o h
   | inline f a o p => simp [simpleItem] at hs
-  | beginSub g i => simp [simpleItem] at hs
-  | endSub r d => simp [simpleItem] at hs
+  | beginSub g i => exact Inv.doBeginSub st g i h
+  | endSub r d => exact Inv.doEndSub st r d h
   | output hd n =>
     simp only [OV.C18.step, doOutput]
     split
@@ -291,7 +344,7 @@ theorem Inv.init : Inv St.init := by
   · simp [St.init]
 
 theorem Inv.foldl (fns : List Fn) : ∀ (tr : List Item) (st : St), (∀ it ∈ tr, simpleItem it = true) →
-    Inv st → Inv (tr.foldl (OV.C18.step fns) st)
+    Inv st → Inv (tr.foldl (OV.C18.step true fns) st)
   | [], st, _, h => h
   | it :: r, st, hs, h => by
     simp only [List.foldl_cons]
